@@ -1,6 +1,6 @@
 (* Monomorphic instances run by the correspondence driver (extracted) and by the in-kernel cross-check (vm_compute):
    labels are integer codes. Definitions only. *)
-From BG Require Import Base DirectedModel DirectedSpec UndirectedModel UndirectedSpec MultiModel WeightedModel MultiSpec ForcedSpec.
+From BG Require Import Base DirectedModel DirectedSpec UndirectedModel UndirectedSpec MultiModel WeightedModel MultiSpec ForcedSpec ConvModel.
 Local Open Scope Z_scope.
 (* the alphabet asked about in hasEdge(i,j,l): 0..3 for labelled graphs, the single NoLabel value otherwise *)
 Definition alpha (hs : bool) : list Z := if hs then [0; 1; 2; 3] else [0].
@@ -72,3 +72,37 @@ Definition m_eq_spec (und : bool) (n : nat) (a b : list mop) :=
   seq_vector (opt2 (spec_eqb Z.eqb) (gsfinal m_rejected_code (mspec_step und) (s_init n) a) (gsfinal m_rejected_code (mspec_step und) (s_init n) b)).
 Definition w_eq_spec (und : bool) (n : nat) (a b : list wop) :=
   seq_vector (opt2 (spec_eqb Z.eqb) (gsfinal w_rejected_code (wspec_step und) (s_init n) a) (gsfinal w_rejected_code (wspec_step und) (s_init n) b)).
+(* ---- C09: conversions of the final graph of a history; constructors from an explicit edge list ---- *)
+Definition obs_d (hs : bool) (v : variant) := observe Z.eqb 0 (fun z => z) (alpha hs) hs v.
+Definition obs_u (hs : bool) (v : variant) := u_observe Z.eqb 0 (fun z => z) (alpha hs) hs v.
+Definition sobs_d (hs : bool) := sobserve Z.eqb 0 hs (fun z => z) (alpha hs).
+Definition sobs_u (hs : bool) := sobserve_u Z.eqb 0 hs (fun z => z) (alpha hs).
+Definition zflag (o : outcome bool) : list (list Z) := [[zout zbool o]].
+Definition d_cv_case (hs : bool) (v : variant) (n : nat) (ops : list (@dop Z)) : list (list (list Z)) :=
+  match gfinal (step hs v) (init n) ops with None => [] | Some g =>
+    let r := reversed 0 hs v g in
+    [ obs_or_err (omap (obs_d hs v) r);
+      zflag (obind r (fun h => obind (reversed 0 hs v h) (fun h2 => graph_eqb Z.eqb h2 g)));
+      obs_or_err (omap (obs_u hs v) (of_directed 0 hs v g)) ] end.
+Definition d_cv_spec (hs : bool) (n : nat) (ops : list (@dop Z)) : list (option (list (list Z))) :=
+  match gsfinal rejected_code spec_step (s_init n) ops with None => [None; None; None] | Some a =>
+    [ Some (sobs_d hs (s_reverse a)); Some [[1]]; if s_unambiguous (veq_of hs) a then Some (sobs_u hs (s_undirect a)) else None ] end.
+Definition u_cv_case (hs : bool) (v : variant) (keep : bool) (n : nat) (ops : list (@uop Z)) : list (list (list Z)) :=
+  match gfinal (ustep hs v) (init n) ops with None => [] | Some g =>
+    let d := to_directed 0 hs v keep g in
+    [ obs_or_err (omap (obs_d hs v) d);
+      zflag (obind d (fun h => obind (of_directed 0 hs v h) (fun u => graph_eqb Z.eqb u g))) ] end.
+Definition u_cv_spec (hs : bool) (n : nat) (ops : list (@uop Z)) : list (option (list (list Z))) :=
+  match gsfinal u_rejected_code uspec_step (s_init n) ops with None => [None; None] | Some a => [ Some (sobs_d hs (s_direct a)); Some [[1]] ] end.
+(* constructors *)
+Definition d_el_case (hs : bool) (v : variant) (es : list (nat * nat * Z)) := [obs_or_err (omap (obs_d hs v) (of_edge_list hs v es))].
+Definition u_el_case (hs : bool) (v : variant) (es : list (nat * nat * Z)) := [obs_or_err (omap (obs_u hs v) (u_of_edge_list hs v es))].
+Definition dm_el_case (v : variant) (es : list (nat * nat * Z)) := [obs_or_err (omap (dm_observe v) (dm_of_edge_list v es))].
+Definition um_el_case (v : variant) (es : list (nat * nat * Z)) := [obs_or_err (omap (um_observe v) (um_of_edge_list v es))].
+Definition dw_el_case (v : variant) (es : list (nat * nat * Z)) := [obs_or_err (omap (dw_observe v) (dw_of_edge_list v es))].
+Definition uw_el_case (v : variant) (es : list (nat * nat * Z)) := [obs_or_err (omap (uw_observe v) (uw_of_edge_list v es))].
+Definition d_el_spec (hs : bool) (es : list (nat * nat * Z)) := [Some (sobs_d hs (fold_left (fun a e => s_add a (fst (fst e)) (snd (fst e)) (snd e)) es (s_init (el_size es))))].
+Definition u_el_spec (hs : bool) (es : list (nat * nat * Z)) :=
+  [Some (sobs_u hs (fold_left (fun a e => s_add a (fst (okey (fst (fst e)) (snd (fst e)))) (snd (okey (fst (fst e)) (snd (fst e)))) (snd e)) es (s_init (el_size es))))].
+Definition m_el_spec (und : bool) (es : list (nat * nat * Z)) := [Some (sobserve_m und (fold_left (fun a e => ms_add und a (fst (fst e)) (snd (fst e)) (snd e)) es (s_init (el_size es))))].
+Definition w_el_spec (und : bool) (es : list (nat * nat * Z)) := [Some (sobserve_w und (fold_left (fun a e => ws_add und a (fst (fst e)) (snd (fst e)) (snd e)) es (s_init (el_size es))))].
